@@ -1420,6 +1420,17 @@ func (c *Client) onPUBLISH(head byte) (message, topic []byte, err error) {
 			return nil, nil, err
 		}
 		if bytes != nil {
+			// The broker may have missed the PUBREC. Ownership was
+			// taken before, so repeat the confirmation right away.
+			if len(c.pendingAck) != 0 {
+				return nil, nil, fmt.Errorf("mqtt: internal error: ack %#x pending during PUBLISH exactly once reception", c.pendingAck)
+			}
+			c.pendingAck = append(c.pendingAck, typePUBREC<<4, 2, byte(packetID>>8), byte(packetID))
+			err := c.writeNoWait(c.pendingAck)
+			if err != nil {
+				return nil, nil, err // keeps pendingAck to retry
+			}
+			c.pendingAck = c.pendingAck[:0]
 			return nil, nil, errDupe
 		}
 
